@@ -29,6 +29,7 @@ class Session:
         for k, v in ex.stats['bounds'].items(): self.bounds[k] = v
         self.paths += ex.stats['paths']; self.blocks += ex.stats.get('blocks', 0)
         ex.stats['paths'] = 0; ex.stats['blocks'] = 0
+        for u in ex.stats.pop('unsupported', []): self.undecided.append('path abandoned: ' + u)
 
     # ------------------------------------------------------------------ queries
     def ask(self, name, assertions, expect, honest=None, attacker=(), values=None, extra_lemmas=(), timeout=None):
